@@ -35,9 +35,10 @@ def cell(rng, kind=None, dmin=0.02, scaled=False):
             al, be, ga = (rng.uniform(20, 160) for _ in range(3))
         if gram_d(al, be, ga) >= dmin:
             if scaled and rng.random() < 0.12:
-                # the properties quantify over all a, b, c > 0: very small and very large cells (a common factor 1e-3.5 .. 1e3) --
+                # the properties quantify over all a, b, c > 0: very small and very large cells (a common factor 1e-5 .. 1e3) --
                 # an ABSOLUTE tolerance somewhere in the code (isclose(volume, 0), allclose against zeros) only shows there
-                f = 10.0 ** rng.uniform(-3.5, 3.0)
+                # half of them at the extremes (unit-carrying absolute tolerances sit at volumes below 1e-8 or above 1e8 A^3)
+                f = 10.0 ** rng.choice([rng.uniform(-5.0, 3.0), rng.uniform(-5.0, -3.5), rng.uniform(2.0, 3.0)])
                 a, b, c = a * f, b * f, c * f
             return [a, b, c, al, be, ga], kind
     raise RuntimeError('cell generator exhausted')
